@@ -283,9 +283,10 @@ class ValueGen:
         if v is False:
             return r.choice([0, 0.0, False])
         if isinstance(v, int) and not isinstance(v, bool):
-            return r.choice([float(v), v + 1, bool(v) if v in (0, 1) else v])
+            as_float = float(v) if abs(v) < 2 ** 1000 else v       # beyond the float range there is no float spelling
+            return r.choice([as_float, v + 1, bool(v) if v in (0, 1) else v])
         if isinstance(v, float):
-            return r.choice([int(v) if v == int(v) else v, v])
+            return r.choice([int(v) if v == v and abs(v) != float("inf") and v == int(v) else v, v])
         if isinstance(v, list):
             return [self.twist(x) for x in v] if r.random() < 0.7 else v + [None]
         if isinstance(v, dict):
